@@ -351,6 +351,16 @@ func runReplicas(r *hx.R, n int, w *hx.W, _ []string) error {
 			})
 		}
 		for ai, a := range apps {
+			if ai == 2 {
+				// replica 2 is a node with a mempool: every transaction of the block went through its CheckTx first (and some
+				// twice, as after a re-check); the check state is not the deliver state
+				for _, bz := range txs {
+					_ = hx.Recover(func() string { a.CheckTx(abci.RequestCheckTx{Tx: bz, Type: abci.CheckTxType_New}); return "ok" })
+					if r.Chance(1, 4) {
+						_ = hx.Recover(func() string { a.CheckTx(abci.RequestCheckTx{Tx: bz, Type: abci.CheckTxType_Recheck}); return "ok" })
+					}
+				}
+			}
 			a.BeginBlock(abci.RequestBeginBlock{Header: header})
 			var res result
 			for ti, bz := range txs {
